@@ -664,7 +664,7 @@ record_function(const InterrogateType &itype, FunctionIndex func_index) {
           if (wrapper_index != 0) {
             InterrogateFunction &mod_ifunc = idb->update_function(func_index);
             record_function_wrapper(mod_ifunc, wrapper_index);
-            VERIF_EVENT("{\"e\":\"UpdateFunction\",\"i\":" << func_index << "," << verif_idb::function_json(mod_ifunc) << "}");
+            VERIF_BUILD_EVENT("{\"e\":\"UpdateFunction\",\"i\":" << func_index << "," << verif_idb::function_json(mod_ifunc) << "}");
           }
         }
       }
